@@ -41,6 +41,7 @@ FUNCS = [
     ('geophires_x/Economics.py', 'CalculateRevenue', {'Energy': 'List', 'Price': 'List'}),
     ('geophires_x/WellBores.py', 'InjectionReservoirPressurePredictor', {}),
     ('geophires_x/WellBores.py', 'ReservoirPressurePredictor', {}),
+    ('geophires_x/SurfacePlant.py', 'integrate_time_series_slice', {}),
     ('geophires_x/Economics.py', 'CalculateCarbonRevenue',
      {'model': 'Skip', 'price_dollar_lb': 'List', 'NetkWhProduced': 'List', 'HeatkWhProduced': 'List',
       # attribute chains read by the function: the end-use option and the two enum members it is compared with (any two distinct integers)
@@ -56,6 +57,7 @@ FRAGMENTS = [
 ]
 
 ANNOT = {'int': 'Int', 'float': 'Rat', 'bool': 'Bool', 'list': 'List'}
+ANNOT_ATTR = {'np.ndarray': 'List', 'np.float64': 'Rat'}
 LEAN_T = {'Int': 'Int', 'Rat': 'Rat', 'Bool': 'Bool', 'List': 'List Rat'}
 
 
@@ -96,7 +98,7 @@ class Tr:
                 continue
             if t is None:
                 ann = a.annotation
-                t = ANNOT.get(ann.id) if isinstance(ann, ast.Name) else None
+                t = ANNOT.get(ann.id) if isinstance(ann, ast.Name) else ANNOT_ATTR.get(ast.unparse(ann)) if ann is not None else None
             if t is None:
                 raise Unsupported(f'parameter {a.arg}: no type')
             self.types[a.arg] = t
@@ -158,7 +160,13 @@ class Tr:
             if tb != 'List':
                 raise Unsupported('subscript of a non-list')
             if isinstance(e.slice, ast.Slice):
-                raise Unsupported('slice')
+                if e.slice.step is not None or e.slice.lower is None or e.slice.upper is None:
+                    raise Unsupported('slice form')
+                lo, tl = self.expr(e.slice.lower)
+                hi, th = self.expr(e.slice.upper)
+                if tl != 'Int' or th != 'Int':
+                    raise Unsupported('non-integer slice bound')
+                return f'(Py.slice {base} {lo} {hi})', 'List'
             i, ti = self.expr(e.slice)
             if ti != 'Int':
                 raise Unsupported('non-integer index')
@@ -175,6 +183,17 @@ class Tr:
                 if ta == tb == 'Int':
                     return f'({e.func.id} {a} {b})', 'Int'
                 return f'({e.func.id} {self.to_rat(a, ta)} {self.to_rat(b, tb)})', 'Rat'
+            if isinstance(e.func, ast.Name) and e.func.id == 'list' and len(e.args) == 1:
+                a, ta = self.expr(e.args[0])
+                if ta != 'List':
+                    raise Unsupported('list() of a non-list')
+                return a, 'List'
+            if ast.unparse(e.func) == 'np.trapz' and len(e.args) == 1 and [k.arg for k in e.keywords] == ['dx']:
+                a, ta = self.expr(e.args[0])
+                d, td = self.expr(e.keywords[0].value)
+                if ta != 'List':
+                    raise Unsupported('np.trapz of a non-list')
+                return f'(Py.trapz {a} {self.to_rat(d, td)})', 'Rat'
             if isinstance(e.func, ast.Name) and e.func.id == 'int' and len(e.args) == 1:
                 a, ta = self.expr(e.args[0])
                 return (a, 'Int') if ta == 'Int' else (f'(Py.trunc {a})', 'Int')
@@ -268,6 +287,9 @@ class Tr:
                     add(n)
             elif isinstance(s, ast.Break):
                 add('brk_')
+            elif (isinstance(s, ast.Expr) and isinstance(s.value, ast.Call) and isinstance(s.value.func, ast.Attribute)
+                  and s.value.func.attr == 'append' and isinstance(s.value.func.value, ast.Name)):
+                add(s.value.func.value.id)
         return out
 
     @staticmethod
@@ -419,6 +441,13 @@ class Tr:
                 out += b2 + [f'{ind}    {self.tuple_of(names)})']
                 if len(names) > 1:
                     out += self.unpack(names, 'st', ind)
+            elif (isinstance(s, ast.Expr) and isinstance(s.value, ast.Call) and isinstance(s.value.func, ast.Attribute)
+                  and s.value.func.attr == 'append' and isinstance(s.value.func.value, ast.Name) and len(s.value.args) == 1):
+                name = s.value.func.value.id
+                if self.types.get(name) != 'List':
+                    raise Unsupported('append to a non-list')
+                v, vt = self.expr(s.value.args[0])
+                out.append(f'{ind}let {ident(name)} := {ident(name)} ++ [{self.to_rat(v, vt)}]')
             elif isinstance(s, ast.Break):
                 out.append(f'{ind}let brk_ := true')
             elif isinstance(s, ast.Return):
